@@ -39,8 +39,10 @@ type Program struct {
 	SSA    *ssa.Program
 	ssaPkg map[string]*ssa.Package
 
-	cha *callgraph.Graph
-	vta *callgraph.Graph
+	cha   *callgraph.Graph
+	vta   *callgraph.Graph
+	light *LightCG
+	idx   *IdxAnchors
 
 	srcFuncs []*ssa.Function // all functions (incl. anonymous) of bluge packages
 }
